@@ -253,7 +253,7 @@ def run(ctx):
         cases = [json.load(open(ctx.replay))["case"]]
         cases[0].setdefault("lines", None)
         raise engine.Machinery("replay for C05: re-run the check; cases are regenerated from the model")
-    shapes = {"top", "d1", "d3", "sec", "bare", "baresib", "two", "cmt", "last"}
+    shapes = {"top", "d1", "d3", "sec", "bare", "baresib", "two", "tworev", "three", "cmt", "last"}
     if ctx.thorough:
         consts = dict(MaxLines=3, Fences={3, 4, 5, 6}, Shapes=shapes)
     else:
@@ -262,7 +262,7 @@ def run(ctx):
     cases = list(res.payload_lines())
     if not ctx.thorough:
         # quick: all single-line zones, and two-line zones for the plain shapes only
-        cases = [c for c in cases if len(c["z"]["ls"]) <= 1 or c["z"]["shape"] in ("top", "d1", "sec", "bare")]
+        cases = [c for c in cases if len(c["z"]["ls"]) <= 1 or c["z"]["shape"] in ("top", "d1", "sec", "bare", "tworev")]
     try:
         records = engine.parallel_map(replay, list(enumerate(cases)), chunk=50)
     finally:
